@@ -13,6 +13,8 @@
           (one z3 query per pair of permutations over two decision-tree summaries).
 (scan)    two scans of the same symbolic file tree under independent symbolic directory-enumeration orders
           (iterdir permutations) and under permuted exclusion tuples: equal module and import sets.
+(scanhist) scans of one tree in one process under different configurations (module_path, exclusions, level_limit,
+          externals): the last scan is judged by C04's absolute reference.
 (ndset)   set-iteration-order nondeterminism (models the hash seed): see vf/engine/ndset_loader.py.
 """
 
@@ -37,6 +39,12 @@ PROP = "C15"
 CAPS = {"quick": 1 << 16, "thorough": 1 << 19}
 NODES1 = ["p", "p.a", "p.b", "p.c"]
 NODES2 = ["p", "p.a", "p.bb"]  # the regex rules of the pool match OTHER modules here than in NODES1 (p.bb instead of p.b)
+NODES2B = ["p", "p.a", "p.bb", "p.bbb"]  # second architecture of the pool entries tagged "N2B"
+
+
+def nodes2_of(desc):
+    return NODES2B if len(desc) > 2 and desc[2] == "N2B" else NODES2
+
 
 
 def evaluate_raw(rule, ev):
@@ -136,6 +144,12 @@ def rule_pool(tier: str) -> list:
     out.append(("layer", LayerSpec((("L0", "regex", (r"p\.a$",)), ("L1", "names", ("p.b",))), "should_only", "access", False, "L0", ("L1",)).as_json()))
     out.append(("diagram", True))
     out.append(("diagram", False))
+    # layers given by a regex that matches OTHER (and more) modules in the second architecture (p.b there; p.bb and
+    # p.bbb here): a used layer-rule object must judge the second code base by the second code base's own modules
+    rl = (("L0", "regex", (r"p\.b+$",)), ("L1", "names", ("p.a",)))
+    for verb, d, exc, subj, obj in (("should_not", "access", False, "L1", "L0"), ("should", "access", False, "L1", "L0"), ("should_only", "access", False, "L0", "L1"), ("should", "access", True, "L0", "L1"), ("should_not", "accessed", True, "L0", "L1")):
+        out.append(("layer", LayerSpec(rl, verb, d, exc, subj, (obj,)).as_json(), "N2B"))
+    out.append(("rule", RuleSpec("should_not", "import", True, "regex", (r"p\.b+$",), "named", ("p.a",)).as_json(), "N2B"))
     return out
 
 
@@ -200,7 +214,7 @@ def _real_arch(nodes, assign, tag):
 def work_pure(inst) -> dict:
     desc = tuple(inst["rule"])
     a1 = SymArch(NODES1, tag="e")
-    a2 = SymArch(NODES2, tag="f")
+    a2 = SymArch(nodes2_of(desc), tag="f")
 
     def fn():
         return pure_outcome(desc, a1.ev, a2.ev)
@@ -209,7 +223,7 @@ def work_pure(inst) -> dict:
         return {"kind": "pure", "rule": list(desc), "assign": [[list(k), v] for k, v in sorted(assign.items(), key=str)]}
 
     keys = [(("e", x, y), 2) for x, y in a1.pairs] + [(("f", x, y), 2) for x, y in a2.pairs]
-    return check_no_mismatch("pure " + show(desc), fn, inst["cap"], make_payload, replay_detail, all_keys=keys, sample={"rule": show(desc), "first_architecture": NODES1, "second_architecture": NODES2})
+    return check_no_mismatch("pure " + show(desc), fn, inst["cap"], make_payload, replay_detail, all_keys=keys, sample={"rule": show(desc), "first_architecture": NODES1, "second_architecture": nodes2_of(desc)})
 
 
 # ---------------------------------------------------------------------------------------------------
@@ -403,6 +417,89 @@ def work_scan(inst) -> dict:
 
 
 # ---------------------------------------------------------------------------------------------------
+# (scanhist) scans of one tree in one process under DIFFERENT configurations: the last scan is judged by C04's
+# absolute reference (modules / hierarchy / imports of the directory tree), so whatever an earlier scan left behind in
+# process-wide state (memo tables keyed on less than their inputs, class attributes) shows as a deviation.
+
+SCANHIST_FIRST = [
+    # (module_path, keyword arguments) of the scan that runs first; its result is not judged
+    ("r/a", {"exclusions": ("*x*",)}),
+    ("r/a", {"exclusions": ("*m.py", "*__init__.py")}),
+    ("r", {"exclusions": ("*a_b*", "*ab.py")}),
+    ("r/a/x", {}),
+    ("r", {"level_limit": 1}),
+    ("r/a", {"exclude_external_libraries": False}),
+    ("r/a", {"exclusions": (), "regex_exclusions": (r".*/u\.py$",)}),
+]
+
+
+def scanhist_outcome(inst, model: FSModel):
+    from pytestarch import get_evaluable_architecture
+
+    from vf.props import c04
+
+    with symfs(model):
+        for step in range(inst.get("pre", 1)):
+            k = ENGINE.choice(("first", step), len(SCANHIST_FIRST))
+            mp1, kw = SCANHIST_FIRST[k]
+            try:
+                get_evaluable_architecture("/symfs/r", "/symfs/" + mp1, **kw)
+            except Exception:  # noqa: BLE001 - e.g. the first module path does not exist on this path
+                pass
+        got = c04.scan(None, inst["mp"], "path")
+        view = c04.lazy_view(model)
+    return c04.judge(model, view, inst["mp"], got, None)
+
+
+def work_scanhist(inst) -> dict:
+    from vf.props import c04
+
+    model = c04.make_model(inst)
+
+    def fn():
+        return scanhist_outcome(inst, model)
+
+    def make_payload(assign):
+        return {"kind": "scanhist", "inst": {k: v for k, v in inst.items() if k != "cap"}, "assign": [[list(k), v] for k, v in sorted(assign.items(), key=str)]}
+
+    keys = model.all_keys() + [(("first", i), len(SCANHIST_FIRST)) for i in range(inst.get("pre", 1))]
+    return check_no_mismatch(label_of(inst), fn, inst["cap"], make_payload, replay_detail, all_keys=keys, sample={"candidate_paths": sorted(model.cands), "first_scans": [str(x) for x in SCANHIST_FIRST]})
+
+
+def replay_scanhist(payload: dict):
+    """Real directory, fresh interpreter state is NOT assumed: the first scan(s) and the judged scan run in this process
+    through the unpatched entry point, exactly as a test session would."""
+    import shutil
+    import tempfile
+
+    from pytestarch import get_evaluable_architecture
+
+    from vf.props import c04
+
+    inst = payload["inst"]
+    model = c04.make_model(inst)
+    assign = {tuple(k): v for k, v in payload["assign"]}
+    d = tempfile.mkdtemp(prefix="c15h_", dir=os.environ.get("VERIF_SCRATCH"))
+    try:
+        model.materialise(assign, d)
+        firsts = []
+        for step in range(inst.get("pre", 1)):
+            mp1, kw = SCANHIST_FIRST[assign.get(("first", step), 0)]
+            firsts.append((mp1, kw))
+            try:
+                get_evaluable_architecture(os.path.join(d, "r"), os.path.join(d, mp1), **kw)
+            except Exception:  # noqa: BLE001
+                pass
+        got = c04.scan(d, inst["mp"], "path", real=True)
+        view = model.concrete(assign)
+        o = c04.judge(model, view, inst["mp"], got, None)
+    finally:
+        shutil.rmtree(d, ignore_errors=True)
+    ok = o[0] == "OK"
+    return ok, f"tree {sorted(view[0])} with lines {view[1]}: after scanning {firsts} in the same process, the scan of module_path={inst['mp']} " + ("is as specified" if ok else f"should give {o[1]}, gives {o[2]}"), {"outcome": [str(x)[:400] for x in o]}
+
+
+# ---------------------------------------------------------------------------------------------------
 
 
 def instances(tier: str) -> list[dict]:
@@ -412,8 +509,9 @@ def instances(tier: str) -> list[dict]:
         out.append({"part": "pure", "rule": list(d), "cap": CAPS[tier]})
     rnd = random.Random(runner.seed() + 15)
     n_pool = 4 if tier == "quick" else 5
-    mod = [d for d in pool if d[0] == "rule"]
-    for name, sel in (("module", mod[::9]), ("aliases", [d for d in mod if d[1].get("anything")] + mod[1:2]), ("mixed", [pool[2], pool[-1], pool[-4], pool[-10], pool[-16]]), ("seeded", rnd.sample(pool, 5)), ("seeded2", rnd.sample(pool, 5))):
+    base = [d for d in pool if len(d) == 2]
+    mod = [d for d in base if d[0] == "rule"]
+    for name, sel in (("module", mod[::9]), ("aliases", [d for d in mod if d[1].get("anything")] + mod[1:2]), ("mixed", [base[2], base[-1], base[-4], base[-10], base[-16]]), ("seeded", rnd.sample(base, 5)), ("seeded2", rnd.sample(base, 5))):
         out.append({"part": "history", "name": name, "pool": [list(d) for d in sel][:n_pool], "L": 3, "cap": CAPS[tier]})
     # a 'sub modules of X' rule followed by rules about other subjects with the same objects, on a tree where X is an
     # inner package (state keyed on the object set must not leak from one subject / rule to the next)
@@ -432,6 +530,11 @@ def instances(tier: str) -> list[dict]:
         out.append({"part": "scan", "excl_perm": k, "cap": CAPS[tier], "fixed": {"r/a": True, "r/c": True, "r/c.py": False}})
         out.append({"part": "scan", "excl_perm": k + 1, "mode": "regex", "cap": CAPS[tier], "fixed": {"r/a": True, "r/c": True, "r/c.py": False, "r/b.py": True}})
     out.append({"part": "scan", "excl_perm": 1, "cap": CAPS[tier], "fixed": {"r/a": True, "r/c": True, "r/c.py": True, "r/a/nn.py": False, "r/a/n.py": False}})
+    for mp, lines in (("r/a", "parent-relative"), ("r/a/x", "parent-relative"), ("r/a", "qualified"), ("r", "qualified"), ("r/rb", "prefixpkg")):
+        fixed = {"r/notes.txt": False, "r/empty": False} if lines != "prefixpkg" else {"r/pyd": False, "r/k.py": False}
+        out.append({"part": "scanhist", "mp": mp, "lines": lines, "pre": 1, "fixed": fixed, "cap": CAPS[tier]})
+    if tier == "thorough":
+        out.append({"part": "scanhist", "mp": "r/a", "lines": "parent-relative", "pre": 2, "fixed": {"r/notes.txt": False, "r/empty": False, "r/a_b": False}, "cap": CAPS[tier]})
     from vf.props import c15nd
 
     out += c15nd.instances(tier)
@@ -460,6 +563,8 @@ def work(inst: dict) -> dict:
         return work_order(inst)
     if p == "scan":
         return work_scan(inst)
+    if p == "scanhist":
+        return work_scanhist(inst)
     from vf.props import c15nd
 
     return c15nd.work(inst)
@@ -489,10 +594,12 @@ def replay_detail(payload: dict):
             outs.append(evaluate_raw(rule, real_architecture(nodes, edges)))
         ok = outs[0] == outs[1]
         return ok, f"{label_of(inst)} on modules {nodes} with imports {edges}: listed as {payload['orders'][0]} -> {outs[0]!r}; listed as {payload['orders'][1]} -> {outs[1]!r}", {"outcomes": [repr(o) for o in outs]}
+    if kind == "scanhist":
+        return replay_scanhist(payload)
     assign = {tuple(k): v for k, v in payload["assign"]}
     if kind == "pure":
         desc = tuple(payload["rule"])
-        o = pure_outcome(desc, _real_arch(NODES1, assign, "e"), _real_arch(NODES2, assign, "f"))
+        o = pure_outcome(desc, _real_arch(NODES1, assign, "e"), _real_arch(nodes2_of(desc), assign, "f"))
         ok = o[0] == "OK"
         return ok, f"rule [{show(desc)}] on imports {[(k[1], k[2]) for k, v in assign.items() if k[0] == 'e' and v]} then on a second architecture with imports {[(k[1], k[2]) for k, v in assign.items() if k[0] == 'f' and v]}: " + ("pure and re-usable" if ok else f"expected {o[1]}, got {o[2]}"), {"outcome": [str(x)[:300] for x in o]}
     if kind == "history":
@@ -551,6 +658,7 @@ def run(tier: str, only: str | None = None) -> int:
         "history": "length 3 over pools of 4-5 rule objects (n-ary symbolic choices), one shared evaluable",
         "order": "all permutations of 2-3 subjects / objects (12 shapes + batched anything) and of 3 layer definitions x 2 object layers on a 5-module tree with adversarial names",
         "scan": {"candidate_paths": sorted(SCAN_CANDS), "exclusions": list(SCAN_EXCL), "orders": "independent symbolic iterdir permutation per directory and scan"},
+        "scanhist": {"first_scans": [str(x) for x in SCANHIST_FIRST], "judged_scans": "module_path r / r/a / r/a/x / r/rb on C04's candidate universes, by C04's absolute reference", "history_length": "2 scans (3 in the thorough tier)"},
         "ndset": c15nd.BOUNDS,
         "path_cap_per_instance": CAPS[tier],
     }
